@@ -13,166 +13,92 @@ import (
 func ruleLayoutBinary(c *Ctx) {
 	p := c.P
 	c.check(p.decimalFieldOrder(), "decimal.fields", nil, "type Decimal struct{lo, hi uint64}", "type Decimal must be struct{lo, hi uint64}")
-	// --- writer
+	word := func(name string) peVal { return peBits{inputVec(name, 64), 64} }
+	// --- writer: evaluated once with every bit of d.lo / d.hi symbolic
 	if fd := c.fn("Decimal.MarshalBinary"); fd != nil {
-		recv := recvObj(p, fd)
-		names := map[types.Object]string{recv: "d"}
-		body := fd.Body.List
-		okShape := len(body) >= 18
-		var dataObj types.Object
+		ev := &peEval{p: p}
+		recv := &peStruct{f: map[string]peVal{"lo": word("d.lo"), "hi": word("d.hi")}}
+		res, why := ev.run(fd, recv, nil)
+		var out peSlice
+		okShape := why == "" && len(res) == 2
 		if okShape {
-			as, ok := body[0].(*ast.AssignStmt)
-			okShape = ok && as.Tok == token.DEFINE && len(as.Lhs) == 1 && len(as.Rhs) == 1
-			if okShape {
-				dataObj = p.objOf(as.Lhs[0])
-				okShape = isMakeBytes(p, as.Rhs[0], 16)
+			var isSl bool
+			out, isSl = res[0].(peSlice)
+			_, nilErr := res[1].(peNil)
+			okShape = isSl && out.arr != nil && nilErr
+			if !okShape {
+				why = fmt.Sprintf("returns (%T, %T)", res[0], res[1])
 			}
-		}
-		if okShape {
-			ret, ok := body[len(body)-1].(*ast.ReturnStmt)
-			okShape = ok && len(ret.Results) == 2 && p.objOf(ret.Results[0]) == dataObj && p.exprStr(ret.Results[1]) == "nil"
 		}
 		if !okShape {
-			c.undecided("marshal.shape", fd, "MarshalBinary must be: data := make([]byte, 16); straight-line stores; return data, nil - nothing else may touch the data")
+			c.undecided("marshal.shape", fd, "MarshalBinary could not be evaluated to (16 bytes, nil) with symbolic words: "+why)
 		} else {
-			seen := map[int64]bool{}
-			env := &bvEnv{p: p, vars: map[types.Object]bitvec{}}
-			env.inputs = p.leafInputs(names, nil, nil)
-			shapeOK := true
-			for _, s := range body[1 : len(body)-1] {
-				as, ok := s.(*ast.AssignStmt)
-				if !ok || len(as.Lhs) != 1 || len(as.Rhs) != 1 {
-					shapeOK = false
-					continue
-				}
-				ix, isIx := as.Lhs[0].(*ast.IndexExpr)
-				if !isIx {
-					// a temporary
-					if o := p.objOf(as.Lhs[0]); o != nil && (as.Tok == token.DEFINE || as.Tok == token.ASSIGN) {
-						env.vars[o] = env.eval(as.Rhs[0])
-					} else {
-						shapeOK = false
-					}
-					continue
-				}
-				if as.Tok != token.ASSIGN || p.objOf(ix.X) != dataObj {
-					shapeOK = false
-					continue
-				}
-				k, ok := p.constInt64(ix.Index)
-				if !ok || k < 0 || k > 15 || seen[k] {
-					c.bad("marshal.store", s, "byte index is not a distinct constant in 0..15")
-					continue
-				}
-				seen[k] = true
-				got := env.eval(as.Rhs[0])
-				src, base := "d.hi", int(56-8*k)
+			c.ok("marshal.shape", fd, fmt.Sprintf("evaluated with all 128 input bits symbolic (%d steps): returns (bytes, nil) on the only path", ev.steps))
+			c.check(out.n == 16, "marshal.complete", fd, "16 bytes returned", fmt.Sprintf("%d bytes returned, want 16", out.n))
+			for k := 0; k < 16 && k < out.n; k++ {
+				got := out.arr.cells[out.off+k]
+				src, base := "d.hi", 56-8*k
 				if k >= 8 {
-					src, base = "d.lo", int(56-8*(k-8))
+					src, base = "d.lo", 56-8*(k-8)
 				}
 				want := expectVec([]run{{7, 0, src, base}}, nil)
-				c.check(got == want, fmt.Sprintf("marshal.byte[%d]", k), s, fmt.Sprintf("= %s[%d..%d]", src, base+7, base),
+				c.check(got == want, fmt.Sprintf("marshal.byte[%d]", k), fd, fmt.Sprintf("= %s[%d..%d]", src, base+7, base),
 					fmt.Sprintf("MarshalBinary byte %d is %s; big-endian hi‖lo requires %s", k, got.describe(), want.describe()))
 			}
-			c.check(shapeOK, "marshal.shape", fd, "body is make(16) + straight-line stores + return: nothing else can influence the bytes", "MarshalBinary contains statements other than byte stores and temporaries")
-			c.check(len(seen) == 16, "marshal.complete", fd, "all 16 bytes written", fmt.Sprintf("only %d distinct bytes written", len(seen)))
 		}
 	}
 	// --- reader
 	if fd := c.fn("Decimal.UnmarshalBinary"); fd != nil {
-		recv := recvObj(p, fd)
-		ps := paramObjs(p, fd)
-		body := fd.Body.List
-		if len(ps) != 1 || len(body) < 2 {
-			c.undecided("unmarshal.shape", fd, "UnmarshalBinary must be: length guard; reads; *d = Decimal{lo, hi}; return nil")
+		if len(paramObjs(p, fd)) != 1 {
+			c.undecided("unmarshal.shape", fd, "UnmarshalBinary(data []byte) error expected")
 			return
 		}
-		data := ps[0]
-		env0 := p.newCanonEnv(fd)
-		isErr := func(s ast.Stmt) bool {
-			r, ok := s.(*ast.ReturnStmt)
-			return ok && len(r.Results) == 1 && p.exprStr(r.Results[0]) != "nil" && p.constOf(r.Results[0]) == nil
-		}
-		// two accepted guard shapes
-		var core []ast.Stmt
-		okGuard := false
-		if g, ok := body[0].(*ast.IfStmt); ok && g.Init == nil && g.Else == nil {
-			x, op, k, okc := p.normCmp(g.Cond)
-			if okc && k.IsInt64() && k.Int64() == 16 && env0.canon(x) == "call(builtin.len;P0)" {
-				switch op {
-				case token.NEQ: // if len != 16 { return err }; core
-					if len(g.Body.List) == 1 && isErr(g.Body.List[0]) {
-						okGuard, core = true, body[1:]
-					}
-				case token.EQL: // if len == 16 { core; return nil }; return err
-					if len(body) == 2 && isErr(body[1]) {
-						okGuard, core = true, g.Body.List
-					}
-				}
-			}
-		}
-		c.check(okGuard, "unmarshal.guard", body[0], "every length other than 16 returns a non-nil error before any read", "UnmarshalBinary must reject every length other than 16 before reading or storing anything")
-		if !okGuard || len(core) < 2 {
-			c.undecided("unmarshal.shape", fd, "UnmarshalBinary must be: length guard; reads; *d = Decimal{lo, hi}; return nil")
-			return
-		}
-		names := map[types.Object]string{data: "data"}
-		env := &bvEnv{p: p, vars: map[types.Object]bitvec{}}
-		env.inputs = p.leafInputs(names, map[string]int{}, nil)
-		okShape := true
-		var words []bitvec
-		nStore := 0
-		for i, s := range core {
-			if i == len(core)-1 {
-				r, ok := s.(*ast.ReturnStmt)
-				if !ok || len(r.Results) != 1 || p.exprStr(r.Results[0]) != "nil" {
-					okShape = false
-				}
-				continue
-			}
-			as, ok := s.(*ast.AssignStmt)
-			if !ok || len(as.Lhs) != 1 || len(as.Rhs) != 1 {
-				okShape = false
-				break
-			}
-			if star, ok := as.Lhs[0].(*ast.StarExpr); ok {
-				// the single store, which must be the last statement before `return nil`
-				cl, okc := as.Rhs[0].(*ast.CompositeLit)
-				if p.objOf(star.X) != recv || !okc || len(cl.Elts) != 2 || as.Tok != token.ASSIGN || i != len(core)-2 {
-					okShape = false
-					break
-				}
-				nStore++
-				byName := map[string]bitvec{}
-				for j, el := range cl.Elts {
-					if kv, isKV := el.(*ast.KeyValueExpr); isKV {
-						byName[p.exprStr(kv.Key)] = env.eval(kv.Value)
-					} else {
-						byName[[]string{"lo", "hi"}[j]] = env.eval(el)
-					}
-				}
-				words = []bitvec{byName["lo"], byName["hi"]}
-				continue
-			}
-			o := p.objOf(as.Lhs[0])
-			if o == nil {
-				okShape = false
-				break
-			}
-			switch as.Tok {
-			case token.DEFINE, token.ASSIGN:
-				env.vars[o] = env.eval(as.Rhs[0])
-			case token.OR_ASSIGN:
-				env.vars[o] = env.vars[o].or(env.eval(as.Rhs[0]))
+		// (a) every length other than 16: a non-nil error and no store through the receiver
+		okGuard, whyGuard := true, ""
+		for _, rg := range [][2]int64{{0, 15}, {17, -1}} {
+			ev := &peEval{p: p}
+			target := &peStruct{f: map[string]peVal{"lo": word("old.lo"), "hi": word("old.hi")}}
+			res, why := ev.run(fd, pePtr{target}, []peVal{peSlice{lenLo: rg[0], lenHi: rg[1]}})
+			switch {
+			case why != "":
+				okGuard, whyGuard = false, why
+			case len(res) != 1:
+				okGuard, whyGuard = false, "result shape"
 			default:
-				okShape = false
+				if _, isErr := res[0].(peErr); !isErr {
+					okGuard, whyGuard = false, fmt.Sprintf("a length in [%d,%d] returns %T instead of an error", rg[0], rg[1], res[0])
+				}
+				if len(ev.stores) > 0 {
+					okGuard, whyGuard = false, "the receiver is written at "+ev.stores[0]+" although the length is wrong"
+				}
 			}
 		}
-		if !okShape || nStore != 1 || len(words) != 2 {
-			c.undecided("unmarshal.shape", fd, "UnmarshalBinary must be: length guard; straight-line reads into locals; one store *d = Decimal{lo, hi}; return nil")
+		c.check(okGuard, "unmarshal.guard", fd, "every length other than 16 returns a non-nil error before any read or store (evaluated for len in [0,15] and [17,∞))", "UnmarshalBinary must reject every length other than 16 before reading or storing anything: "+whyGuard)
+		// (b) length 16 with every data bit symbolic
+		ev := &peEval{p: p}
+		cells := make([]bitvec, 16)
+		for k := range cells {
+			cells[k] = inputVec(fmt.Sprintf("data%d", k), 8)
+		}
+		target := &peStruct{f: map[string]peVal{"lo": word("old.lo"), "hi": word("old.hi")}}
+		res, why := ev.run(fd, pePtr{target}, []peVal{peSlice{arr: &peCells{cells}, n: 16}})
+		okShape := why == "" && len(res) == 1
+		if okShape {
+			if _, isNil := res[0].(peNil); !isNil {
+				okShape, why = false, fmt.Sprintf("16 bytes return %T, want nil", res[0])
+			}
+		}
+		lo, okLo := target.f["lo"].(peBits)
+		hi, okHi := target.f["hi"].(peBits)
+		if okShape && (!okLo || !okHi) {
+			okShape, why = false, "the stored words are not tracked integers"
+		}
+		if !okShape {
+			c.undecided("unmarshal.shape", fd, "UnmarshalBinary could not be evaluated on 16 symbolic bytes: "+why)
 			return
 		}
-		c.ok("unmarshal.shape", fd, "body is guard + straight-line reads + one store + return nil")
+		c.ok("unmarshal.shape", fd, fmt.Sprintf("evaluated with all 128 data bits symbolic (%d steps): stores the receiver and returns nil on the only path", ev.steps))
+		words := []bitvec{lo.bv, hi.bv}
 		for w, name := range []string{"lo", "hi"} {
 			var runs []run
 			for j := 0; j < 8; j++ {
@@ -230,7 +156,59 @@ func ruleLayoutDecompose(c *Ctx) {
 	// find the 16 stores sig[k] = byte(sig128[w] >> s)
 	var sigObj, srcObj types.Object
 	seen := map[int64]bool{}
+	// the stores may have been moved into a helper `put(dst, coefficient)`: analyse its body with
+	// dst standing for sig and its coefficient parameter for the decompose result
+	storeBody := ast.Node(fd.Body)
+	var helperSig, helperSrc types.Object // the helper's parameters
+	var callerSig, callerSrc types.Object // what the caller passes for them
+	direct := false
 	ast.Inspect(fd.Body, func(n ast.Node) bool {
+		if as, ok := n.(*ast.AssignStmt); ok && len(as.Lhs) == 1 {
+			if ix, ok := as.Lhs[0].(*ast.IndexExpr); ok {
+				if o := p.objOf(ix.X); o != nil && o.Name() == "sig" {
+					direct = true
+				}
+			}
+		}
+		return true
+	})
+	if !direct {
+		for _, st := range fd.Body.List {
+			es, ok := st.(*ast.ExprStmt)
+			if !ok {
+				continue
+			}
+			call, ok := es.X.(*ast.CallExpr)
+			if !ok {
+				continue
+			}
+			cfd := p.Funcs[p.calleeName(call)]
+			if cfd == nil || cfd.Body == nil || cfd.Name.IsExported() {
+				continue
+			}
+			cps := paramObjs(p, cfd)
+			for i, a := range call.Args {
+				if i >= len(cps) {
+					break
+				}
+				o := p.objOf(a)
+				if o == nil {
+					continue
+				}
+				if o.Name() == "sig" {
+					helperSig, callerSig = cps[i], o
+				} else if limbsOf(o.Type()) == 2 {
+					helperSrc, callerSrc = cps[i], o
+				}
+			}
+			if helperSig != nil && helperSrc != nil {
+				storeBody = cfd.Body
+				break
+			}
+			helperSig, helperSrc = nil, nil
+		}
+	}
+	ast.Inspect(storeBody, func(n ast.Node) bool {
 		as, ok := n.(*ast.AssignStmt)
 		if !ok || as.Tok != token.ASSIGN || len(as.Lhs) != 1 || len(as.Rhs) != 1 {
 			return true
@@ -244,7 +222,12 @@ func ruleLayoutDecompose(c *Ctx) {
 			return true
 		}
 		o := p.objOf(ix.X)
-		if o == nil || o.Name() != "sig" {
+		if helperSig != nil {
+			if o != helperSig {
+				return true
+			}
+			sigObj, srcObj = helperSig, helperSrc
+		} else if o == nil || o.Name() != "sig" {
 			return true
 		}
 		if sigObj == nil {
@@ -278,6 +261,22 @@ func ruleLayoutDecompose(c *Ctx) {
 	c.check(len(seen) == 16, "decompose.complete", fd, "16 coefficient bytes written", fmt.Sprintf("%d coefficient bytes written, want 16", len(seen)), "C14")
 	// the stores are unconditional: a reused buffer may hold stale bytes
 	cond := 0
+	if helperSig != nil {
+		// in the helper every store must be a top-level statement, and the call itself is one in Decompose (found above)
+		for _, st := range storeBody.(*ast.BlockStmt).List {
+			if _, isAssign := st.(*ast.AssignStmt); !isAssign {
+				ast.Inspect(st, func(n ast.Node) bool {
+					if as, ok := n.(*ast.AssignStmt); ok && len(as.Lhs) == 1 {
+						if ix, ok := as.Lhs[0].(*ast.IndexExpr); ok && p.objOf(ix.X) == helperSig {
+							cond++
+						}
+					}
+					return true
+				})
+			}
+		}
+		sigObj, srcObj = callerSig, callerSrc
+	}
 	for _, st := range fd.Body.List {
 		if _, isAssign := st.(*ast.AssignStmt); isAssign {
 			continue
